@@ -58,6 +58,8 @@ pub fn catalog() -> Vec<J> {
         // strings and member names made of JSON punctuation (`,` `:` `:[` `":` `", "` `\"`), as members and elements
         json!({"motto": "veni,vidi", "q": "a\":b", "r": "x:[y", "s": ",", "t": "\",\"", "u": "\": ", "v": ":[", "w": "\":", "lead": ",x", "trail": "x,", "arr": ["a,b", ":[", "\":", "x\", \"y", ",", "\\\",", "{\"a\":[1,2]}"], "o": {"in": {"deep": ["1,2", {"k": "a,b:[c\":d"}]}}}),
         json!({"k,1": "v", "k\":x": {"in:[ner": [",", "a, b"], ", ": 1, "\": ": {"\",\"": "x,y"}}, "lst": [{"a,b": ":["}, [{"\":": ","}]]}),
+        // top-level members with commonly special-cased names holding objects
+        json!({"status": {"status_list": {"idx": 1, "uri": "u"}}, "vct": {"id": {"v": 1}}, "jti": {"a": {"b": 1}}, "typ": {"x": {}}, "amr": [{"m": {"n": 1}}], "nonce": {"k": {}}, "kid": {"k": [1]}}),
         // members NAMED like registered JWT claims, nested and inside array elements
         json!({"licence": {"iss": "dmv", "sub": "s", "aud": "a", "exp": 1, "nbf": 2, "iat": 3, "jti": "j", "cnf": {"k": 1}, "typ": "t", "alg": "none"}, "devices": [{"cnf": {"jwk": "x"}, "iss": "dev", "nbf": 9}]}),
         // length: more than 16 elements in one array
